@@ -22,6 +22,7 @@ LEAF = [
                                 "varintEliasDeltaMaxBytes"]),
     ("for", "varintFOR.c", ["varintFORComputeWidth"]),
     ("bp128", "varintBP128.c", ["varintBP128BitsNeeded32", "varintBP128BitsNeeded64"]),
+    ("pfor", "varintPFOR.c", ["varintPFORCalculateMarker"]),
 ]
 
 
